@@ -449,3 +449,38 @@ func sortedLines(s string) string {
 	sort.Strings(l)
 	return strings.Join(l, "\n")
 }
+
+// binMustAgree: exit status and error message are produced by main(), which the in-process driver bypasses. For a run
+// that failed in-process the real binary (fresh process, same files, environment and zone) must exit non-zero and print
+// the same error; for a run that succeeded it must exit 0 with the same report (reported as conformance, not as a
+// violation, when only the order of rows differs). The oracle itself runs on the binary, so no further confirmation.
+func (w *Worker) binMustAgree(x *Exec, c appCase, r AppRun, sig string) {
+	if w.Bin == "" {
+		return
+	}
+	tz := ""
+	if c.TZName != "" {
+		tz = c.TZName
+	} else if n, ok := tzName(c.TZ); ok {
+		tz = n
+	}
+	b := w.runBin(c, tz)
+	w.Notes["runs_repeated_on_the_real_binary"]++
+	inFailed := r.Failed || r.Panic != ""
+	rep := map[string]interface{}{"cmd": c.shell(), "in_process": r.String(), "binary_exit_status": b.Code, "binary_stdout": tailStr(b.Stdout, 800), "binary_stderr": tailStr(b.Stderr, 800)}
+	switch {
+	case inFailed && b.Code == 0:
+		x.NoConfirm = true
+		x.Violate(sig+"|real-binary-exit-status-0", fmt.Sprintf("`%s`: the command fails (%s) but the program exits with status 0\nstdout: %s\nstderr: %s", c.shell(), firstLine(r.Err+r.Panic), tailStr(b.Stdout, 400), tailStr(b.Stderr, 400)), rep)
+	case inFailed && r.Panic == "" && strings.TrimSpace(firstLine(r.Err)) != "" && !strings.Contains(b.Stderr+b.Stdout, strings.TrimSpace(firstLine(r.Err))):
+		x.NoConfirm = true
+		x.Violate(sig+"|real-binary-does-not-print-the-error", fmt.Sprintf("`%s`: the command fails with %q; the program exits with status %d and prints\nstdout: %s\nstderr: %s", c.shell(), firstLine(r.Err), b.Code, tailStr(b.Stdout, 400), tailStr(b.Stderr, 400)), rep)
+	case !inFailed && b.Code != 0:
+		x.NoConfirm = true
+		x.Violate(sig+"|real-binary-fails-where-the-command-succeeds", fmt.Sprintf("`%s`: the command succeeds in-process; the program exits with status %d\nstderr: %s", c.shell(), b.Code, tailStr(b.Stderr, 400)), rep)
+	case !inFailed && b.Stdout != r.Stdout && sortedLines(b.Stdout) != sortedLines(r.Stdout):
+		if w.Nondet == "" {
+			w.Nondet = fmt.Sprintf("conformance: in-process run and real binary disagree for `%s`\n--- in-process\n%s\n--- binary\n%s", c.shell(), tailStr(r.Stdout, 1200), tailStr(b.Stdout, 1200))
+		}
+	}
+}
